@@ -83,7 +83,7 @@ fn main() {
     // the scripts with a tiny lane <-> runtime channel first (lane events stay queued inside the lane)
     let mut cfgs = vec![];
     for mut c in grid(&sc, &[4096], &[2, 64], &modes, &[0]) {
-        c.lane_buf = 16;
+        c.lane_buf = 8;
         cfgs.push(c);
     }
     cfgs.extend(grid(&sc, if quick { &[8, 4096] } else { &[8, 48, 4096] }, &[2, 64], &modes, &[0]));
@@ -91,7 +91,7 @@ fn main() {
     let core: Vec<_> = sc.iter().filter(|(s, _)| s.len() <= 4).cloned().collect();
     let mut cfgs = grid(&core, &[8], &[2, 3], &[Mode::Eager, Mode::SlowRead], &[0, 7]);
     for mut c in grid(&core, &[4096], &[2, 64], &[Mode::Eager, Mode::Burst], &[0]) {
-        c.lane_buf = 16;
+        c.lane_buf = 8;
         cfgs.push(c);
     }
     run_grid(&ctx, GridSpec { name: "as-sync-core-d2".into(), cfgs, bound: if quick { 2 } else { 3 }, max_exec_per_cfg: if quick { 20_000 } else { 3_000_000 }, wall_cap_s: if quick { 18.0 } else { 1200.0 } });
